@@ -991,9 +991,11 @@ class Consumer(object):
         proc_block_end = proc_block_size
 
         while proc_block_begin < len(messages) and not self._shuttingdown:
-            if self._start_d is not None and self._start_d.called:
-                # We have already reported a failure (e.g. of the processor)
-                # to our user: deliver, and so commit, nothing beyond it.
+            if self._stopping or self._start_d is None or self._start_d.called:
+                # We are being stopped (stop() cancelled the processor's
+                # Deferred and so resumed us), or we have already reported
+                # a failure (e.g. of the processor) to our user: deliver,
+                # and so commit, nothing beyond it.
                 break
             msgs_to_proc = messages[proc_block_begin:proc_block_end]
             # Call our processor callable and handle the possibility it returned
